@@ -150,7 +150,10 @@ def in_dir_of(in_dir, job):
     return str(Path(in_dir) / f"{job['naming']}-{len(job['names'])}")
 
 
-def write_cfg(scratch: Path, name, n, ws, typed, plans, named=(True,), namings=("plain",)):
+REPS = ("list", "tuple", "liststr", "members", "datastore", "generator", "map", "iter", "reversed", "glob")
+
+
+def write_cfg(scratch: Path, name, n, ws, typed, plans, named=(True,), namings=("plain",), reps=("list",)):
     """-> (cfg path relative to specs/, PLAN_FILE)"""
     text = (
         "SPECIFICATION Spec\nCONSTANTS\n"
@@ -159,6 +162,7 @@ def write_cfg(scratch: Path, name, n, ws, typed, plans, named=(True,), namings=(
         f"  Named = {{{', '.join('TRUE' if t else 'FALSE' for t in named)}}}\n"
         "  Reversed = {FALSE}\n  FnStep = 2\n  Isolated = TRUE\n"
         f"  Namings = {tla_value(set(namings))}\n  RetireRule = \"equal\"\n"
+        f"  Reps = {tla_value(set(reps))}\n"
     )
     text += "".join(f"INVARIANT {i}\n" for i in ("TypeOK", "Conservation", "AtMostOnce", "Accounted", "KindAndStep", "PassThrough", "Fifo", "ArgPristine"))
     text += "PROPERTY WriteOnce\n"
@@ -318,7 +322,7 @@ def alone_key(job, i):
 def count_case(job):
     """distinct non-trivial case: (mode, writer, input kind, plan, W, order) with at least one failing record"""
     if any(o != "ok" for p in job["plan"] for o in p):
-        DISTINCT.add((job.get("kind", "apply_to"), job.get("family"), job.get("naming"), job.get("step2"), job.get("step3"), bool(job.get("rev")), json.dumps(job.get("vclass")), job.get("writer"), job["inputs"], json.dumps(job["plan"]), job.get("w", 0), tuple(job.get("order") or ()), tuple(job.get("delays") or ())))
+        DISTINCT.add((job.get("kind", "apply_to"), job.get("family"), job.get("naming"), job.get("rep"), job.get("step2"), job.get("step3"), bool(job.get("rev")), json.dumps(job.get("vclass")), job.get("writer"), job["inputs"], json.dumps(job["plan"]), job.get("w", 0), tuple(job.get("order") or ()), tuple(job.get("delays") or ())))
 
 
 def judge(run, job, rec, obs, alone):
@@ -373,13 +377,13 @@ def judge(run, job, rec, obs, alone):
         bad |= run.fail(f"{mode}:{writer}:record-written-more-than-once", detail, what="an identifier was written twice")
     elif sorted(seq) != list(range(1, n + 1)):
         bad |= run.fail(f"{mode}:{writer}:set-of-written-identifiers", detail, what="identifiers handed to the store are not the inputs' identifiers")
-    elif (mode == "serial" or job.get("order")) and seq != rec["cons"] and "unforced" not in obs:
+    elif (mode == "serial" or job.get("order")) and seq != rec["cons"] and "unforced" not in obs and job.get("rep") not in impl_C14.UNORDERED_REPS:
         bad |= run.fail(f"{mode}:{writer}:consumption-order", detail, what="records were written in an order the schedule does not allow")
     for wr in writes:
         if 1 <= wr["i"] <= n and wr["rec"] != exp[wr["i"] - 1] and not d:
             bad |= run.fail(f"{mode}:{writer}:record-overwritten", detail, what="a record handed to the store differs from the final one")
     # identical to the single-input run
-    if not d:
+    if not d and job.get("rep") not in impl_C14.UNORDERED_REPS:  # (those read another directory: the source path differs)
         for i in range(1, n + 1):
             ref = alone.get(alone_key(job, i))
             if ref is not None and obs["raw"].get(str(i)) != ref:
@@ -421,8 +425,10 @@ def judge_as_completed(run, job, rec, obs):
     if obs["ret"] != "ok":
         return run.fail(f"as_completed:raised:{obs.get('exception')}", detail)
     exp = [{"src": i + 1, "obj": v} for i, v in enumerate(rec["vals"])]
-    if job.get("rev"):
+    if bool(job.get("rev")) != (job.get("rep") == "reversed"):
         exp.reverse()
+    if job.get("rep") in impl_C14.UNORDERED_REPS and obs.get("ret") == "ok":
+        obs = dict(obs, results=sorted(obs["results"], key=lambda r: r["src"]))
     if job.get("step2") == "fn" and obs.get("ret") == "ok" and obs.get("argseen") != rec["argseen"]:
         run.fail("as_completed:function-step-mutable-argument-not-as-constructed", detail | {"spec_argseen": rec["argseen"]}, what="a call of the function style step found arguments changed by another record")
     if obs["anomalies"]:
@@ -461,7 +467,7 @@ def trace_of(job, obs):
                 ev.append({"op": "Consume", "t": t, "rec": r})
     if obs["ret"] == "ok":
         ev.append({"op": "Final", "t": 0, "rec": obs["disk"]})
-    return {"plan": [list(p) for p in job["plan"]], "named": job.get("named") or [True] * n, "rev": bool(job.get("rev")), "naming": job.get("naming") or "plain", "w": w, "wtyped": impl_C14.WRITERS[job["writer"]][2], "events": ev}
+    return {"plan": [list(p) for p in job["plan"]], "named": job.get("named") or [True] * n, "rev": bool(job.get("rev")), "rep": job.get("rep") or "list", "naming": job.get("naming") or "plain", "w": w, "wtyped": impl_C14.WRITERS[job["writer"]][2], "events": ev}
 
 
 def validate_traces(run, scratch, pairs):
@@ -482,7 +488,7 @@ def validate_traces(run, scratch, pairs):
             "SPECIFICATION TraceSpec\nCONSTANTS\n"
             f"  N = {n}\n  S = {S}\n  Ws = {{0, 1, 2, 3, 4}}\n  WriterTyped = {{TRUE, FALSE}}\n  Named = {{TRUE, FALSE}}\n"
             "  Reversed = {FALSE, TRUE}\n  FnStep = 2\n  Isolated = TRUE\n"
-            f"  Namings = {tla_value(set(NAMINGS) | {'plain'})}\n  RetireRule = \"equal\"\n"
+            f"  Namings = {tla_value(set(NAMINGS) | {'plain'})}\n  RetireRule = \"equal\"\n  Reps = {tla_value(set(REPS))}\n"
             "INVARIANT Report\n"
         )
         res = run_tlc("Trace_ComposedApp", os.path.relpath(cfg, VERIF / "specs"), scratch, workers=1, env={"TRACE_FILE": tf, "PLAN_FILE": ""}, timeout=1200)
@@ -648,8 +654,8 @@ def index_records(recs):
     for r in recs:
         plan = tuple(tuple(p) for p in r["plan"])
         if r["act"] == "Serial":
-            ser[(r["n"], plan, r["wtyped"], tuple(r["named"]), bool(r["rev"]), r["naming"])] = r
-        elif not r["rev"]:
+            ser[(r["n"], plan, r["wtyped"], tuple(r["named"]), bool(r["rev"]), r["naming"], r["rep"])] = r
+        elif not r["rev"] and r["rep"] == "list":
             par[(r["n"], r["w"], tuple(r["order"]))].append(r)
     return ser, par
 
@@ -753,7 +759,9 @@ def check(run: Run):
                     ("MC_ComposedApp_quick.cfg", "n2-all", True),
                     (write_cfg(scratch, "MC_n3_pairwise.cfg", 3, [0, 1, 2, 3], [True, False], plans3), "n3-pairwise", True),
                     # identifiers related by suffix / prefix / containing dots (serial order)
-                    (write_cfg(scratch, "MC_n3_names.cfg", 3, [0], [True, False], plans3[::2], namings=NAMINGS), "n3-names", True),
+                    (write_cfg(scratch, "MC_n3_names.cfg", 3, [0], [True, False], plans3[::3], namings=NAMINGS), "n3-names", True),
+                    # the collection of inputs handed over as a tuple, a generator, a map, reversed(), a glob ..
+                    (write_cfg(scratch, "MC_n3_reps.cfg", 3, [0], [True, False], plans3[::12], reps=REPS[1:]), "n3-reps", True),
                 ]
                 # (liveness - MC_ComposedApp_live.cfg - is checked in the thorough tier)
                 from concurrent.futures import ThreadPoolExecutor
@@ -778,6 +786,7 @@ def check(run: Run):
                         (write_cfg(scratch, "MC_n4_pairwise.cfg", 4, [0, 1, 2, 3], [True, False], plans4), "n4-pairwise", True),
                         (("MC_ComposedApp_live.cfg", live), "liveness", False),
                         (write_cfg(scratch, "MC_n3_names.cfg", 3, [0, 2, 3], [True, False], plans3, namings=NAMINGS), "n3-names", True),
+                        (write_cfg(scratch, "MC_n3_reps.cfg", 3, [0], [True, False], plans3, reps=REPS[1:]), "n3-reps", True),
                     ],
                     4,
                 )
@@ -808,9 +817,17 @@ def check(run: Run):
                 serial_jobs[jid] = (job, rec)
 
             wfor = lambda k: ("write_json", "write_db")[k % 2]
-            for k, ((n, plan, typed, named, rev, naming), rec) in enumerate(sorted(ser.items(), key=lambda kv: kv[0])):
+            for k, ((n, plan, typed, named, rev, naming, irep), rec) in enumerate(sorted(ser.items(), key=lambda kv: kv[0])):
                 lplan = [list(p) for p in plan]
-                base = {"n": n, "plan": lplan, "named": list(named), "w": 0, "order": [], "naming": naming, "names": rec["names"]}
+                base = {"n": n, "plan": lplan, "named": list(named), "w": 0, "order": [], "naming": naming, "names": rec["names"], "rep": irep}
+                if irep != "list":
+                    # the same inputs in another representation (one-shot iterables can be walked once)
+                    writer = ("write_seqs", "write_seqs_sqlite")[k % 4 == 3] if typed else ("write_json", "write_db")[k % 2]
+                    kind = {"members": "member", "datastore": "member", "liststr": "path", "glob": "path"}.get(irep, ("member", "path")[k % 2])
+                    add(dict(base, family="seqs", step2="fn" if k % 2 else None, vclass=named_wrong_classes(plan, k), writer=writer, inputs=kind), rec)
+                    if not typed and k % 2:
+                        add(dict(base, kind="as_completed", family="seqs", step2=None, vclass=named_wrong_classes(plan, k), inputs=kind), rec)
+                    continue
                 if naming != "plain":
                     # identifiers related to each other: directory and sqlite stores
                     writer = ("write_seqs", "write_seqs_sqlite")[k % 4 == 3] if typed else ("write_json", "write_db", "write_json_sqlite")[k % 3]
@@ -853,7 +870,7 @@ def check(run: Run):
             alone_keys = {}
             need = set()
             for job, _ in list(serial_jobs.values()) + list(pjobs.values()):
-                if job.get("kind") != "as_completed" and not (tier == "quick" and job.get("naming", "plain") != "plain"):
+                if job.get("kind") != "as_completed" and not (tier == "quick" and (job.get("naming", "plain") != "plain" or (job.get("rep") or "list") != "list")):
                     need.update(alone_key(job, i + 1) for i in range(job["n"]))
             for key in sorted(need):
                 names, family, s3, writer, inputs, prof, vcls, i = key
@@ -883,7 +900,7 @@ def check(run: Run):
                     judge_as_completed(run, job, rec, o)
                 else:
                     judge(run, job, rec, o, alone)
-                    if nser % 23 == 0 and (job["n"] >= 3 or job.get("family") == "values"):
+                    if nser % 23 == 0 and (job["n"] >= 3 or job.get("family") == "values") and job.get("rep") not in impl_C14.UNORDERED_REPS:
                         trace_pairs.append((job, o))
                 nser += 1
                 if nser % 997 == 1:
